@@ -1058,3 +1058,8 @@ mod tests {
         assert_eq!(framed.len() - body.len(), notify_prefix_len(path));
     }
 }
+
+#[cfg(kani)]
+mod verif_kani {
+    include!(concat!(env!("REPE_VERIF_KANI"), "/peer.rs"));
+}
